@@ -38,11 +38,18 @@ fn collect_checks(j: &J, clauses: &BTreeMap<String, Clause>, out: &mut Vec<(Stri
                     Some(Clause { kind: Kind::Binary { rhs: Expr::Query { q: Query { head: Head::Key(_), .. }, .. }, .. }, .. }) => true,
                     _ => false,
                 };
+                // the left-hand side of a clause whose query starts at a key is data, never a literal
+                let from_is_data = matches!(clauses.get(m), Some(Clause { q: Query { head: Head::Key(_), .. }, .. }));
                 let mut all = vec![];
                 collect_pairs(check, "", &mut all);
-                for p in all {
+                for mut p in all {
                     if p.0 == "to" && !to_from_data {
                         continue;
+                    }
+                    if (p.0 == "from" || p.0 == "value") && from_is_data && p.1.is_empty() {
+                        // marked: an empty path is not a pointer to a selected value
+                        p.0 = format!("{} (left-hand side of <<{}>>)", p.0, m);
+                        p.1 = "\u{0}literal".into();
                     }
                     out.push(p);
                 }
@@ -186,6 +193,12 @@ fn check_report(doc: &V, w: &Written, report: &J, clauses: &BTreeMap<String, Cla
     for (key, path, value) in &pairs {
         if path.is_empty() {
             continue; // literals and the root carry an empty path
+        }
+        if path == "\u{0}literal" && V::from_json(value) == *doc {
+            continue; // the root itself (`this` at rule level) has the empty path
+        }
+        if path == "\u{0}literal" {
+            return Err((format!("{} is reported with an empty path and the value {}: the left-hand side of the clause is a query into the data", key, value), "c10:from-not-in-document".into()));
         }
         let got = V::from_json(value);
         match doc.pointer(path) {
